@@ -245,6 +245,11 @@ def corpus(ctx):
     pred = np.array([[0, 0, 3, 3, 0, 0]], np.uint8)
     one_case(ctx, pred, ref, "IOU", (1, 2), False, "corpus.exact-half")
     one_case(ctx, pred, ref, "DSC", (2, 3), False, "corpus.exact-dsc")
+    # every prediction matched, a missed reference with the largest label (>= 2^8 / 2^16): the reported pair must keep the reference
+    for p, r in gen.missed_large_reference_scenes():
+        ctx.count("missed_reference_with_the_largest_label")
+        for m2o in (False, True):
+            one_case(ctx, p, r, "IOU", (1, 2), m2o, "corpus.missed-large-reference", check_monotone=False)
     # labels near dtype limits in the pair encoding
     ref = np.zeros((1, 40), np.uint8)
     pred = np.zeros((1, 40), np.uint8)
